@@ -806,8 +806,9 @@ def regenerate(log=print, dry=False):
     if REPO not in sys.path:
         sys.path.insert(0, REPO)
     status = {}
+    import extract2
     for name, fn in (('Predicates', gen_predicates), ('Junctors', gen_junctors), ('Formats', gen_formats), ('Loops', gen_loops),
-                     ('Lindig', gen_lindig), ('Fcbo', gen_fcbo), ('Validate', gen_validate)):
+                     ('Lindig', gen_lindig), ('Fcbo', gen_fcbo), ('Validate', gen_validate)) + tuple(extract2.GENERATORS):
         path = os.path.join(GEN, name + '.lean')
         try:
             text = fn()
